@@ -14,7 +14,7 @@ from common import hx, setup_repo_import
 from vloop import patch_aiosqlite, vrun
 
 ID = "C12"
-GENS = []
+GENS = ["c12_server"]
 PROOF = "Gallia.Proofs.C12"
 DRIVER = "c12"
 ASSUMPTIONS = [
@@ -338,6 +338,274 @@ def _kind_of_real(pdu):
     return "other"
 
 
+class ScriptECU:
+    """answers the i-th request with the i-th recorded reply (None: silence) - the recorded history as an ECU"""
+
+    def __init__(self, hist):
+        self.replies = [r for _, r in hist]
+        self.i = 0
+
+    def __call__(self, p):
+        r = self.replies[self.i] if self.i < len(self.replies) else None
+        self.i += 1
+        return r
+
+
+def _rerecord_and_replay(ctx, hist):
+    """record `hist` ([(request, reply|None)]) with the real recorder against a scripted ECU into a fresh database, replay the
+    requests through the real DBUDSServer; returns (recorded tokens, replayed tokens, model says the presupposition holds)"""
+    from lib import c12scen as sc
+
+    with tempfile.TemporaryDirectory(prefix="verif-c12-") as td:
+        dbp = Path(td) / "case.sqlite"
+        rec, _ = vrun(sc.record_run(dbp, "fake://case", ScriptECU(hist), [("pdu", p) for p, _ in hist]))
+        sc.name_runs(dbp, [(rec["run"], "fake://case", "ECU0", {})])
+        real, _ = vrun(sc.replay_trace(dbp, "ECU0", None, [(0, p) for p, _ in hist]))
+    la = ctx.lean(["agree " + ";".join(f"{hx(p) if p else '-'}:{hx(r) if r is not None else 'N'}" for p, r in hist)])[0] if hist else "1"
+    recorded = ["N" if r is None else hx(r) for _, r, _ in rec["calls"]]
+    return recorded, [t.split("~")[0] for t in real], la.split(" ")[0] == "1"
+
+
+def _first_diff(a, b):
+    return next((k for k in range(min(len(a), len(b))) if a[k] != b[k]), None)
+
+
+def _what(tok):
+    return "exception" if tok == "EXC" else ("silence" if tok == "N" else "other-bytes")
+
+
+def _shrink_history(ctx, hist):
+    """smallest history (prefix, then single exchanges dropped front to back) that the real recorder + the real DBUDSServer still replay
+    differently from what was recorded although client and server agree on the state along it; None when the failure does not
+    reproduce from the history alone"""
+    def fails(h):
+        recorded, real, agree = _rerecord_and_replay(ctx, h)
+        i = _first_diff(recorded, real)
+        return (i, _what(real[i])) if agree and i is not None else None
+
+    f = fails(hist)
+    if f is None:
+        return None
+    hist = hist[: f[0] + 1]
+    what = f[1]
+    k = 0
+    budget = 60
+    while k < len(hist) - 1 and budget > 0:
+        budget -= 1
+        cand = hist[:k] + hist[k + 1:]
+        g = fails(cand)
+        if g is not None and g[1] == what and g[0] == len(cand) - 1:
+            hist = cand
+        else:
+            k += 1
+    return hist, what
+
+
+def _report_spec(ctx, hist, where, scenario, runs_in_db, real_tokens, recorded_tokens, unparsable):
+    """the replay differs from the recording although the states agree: shrink, then report with a key that names the defect"""
+    i = _first_diff(recorded_tokens, real_tokens)
+    what = _what(real_tokens[i])
+    shrunk = _shrink_history(ctx, hist)
+    if shrunk is not None:
+        small, what_s = shrunk
+        case = {"scenario": scenario, "shrunk": True, "history": [[hx(p), None if r is None else hx(r)] for p, r in small], "index": len(small) - 1}
+        rec_i = small[-1][1]
+        what = what_s
+    else:
+        case = {"scenario": scenario, "shrunk": False, "runs_in_db": runs_in_db, "where": where,
+                "history": [[hx(p), None if r is None else hx(r)] for p, r in hist], "index": i}
+        rec_i = hist[i][1]
+    bad = rec_i is not None and hx(rec_i) in unparsable
+    key = f"replay:unparsable-recorded-reply:{what}" if bad else f"replay:differs-from-recording:{what}"
+    ctx.disagree(key, f"replayed reply {case['index']} is {real_tokens[i] if shrunk is None else what} but {'silence' if rec_i is None else hx(rec_i)} was recorded"
+                 + (" (a reply the client refused as malformed; the recorder kept its bytes)" if bad else "") + " - client and server agree on the state along the history",
+                 case, impl=real_tokens[: i + 1], model=recorded_tokens[: i + 1], spec_violated=True, site="DBUDSServer.respond_after_default")
+
+
+def _scenarios(ctx, td):
+    """databases with several recordings of one ECU, refused replies, cancelled calls, OEM state keys, pauses, a table of state objects
+    (harness/lib/c12scen.py) - replayed through the real server with state and cursor read after every request, and through `serve`"""
+    from lib import c12scen as sc
+
+    rng = ctx.rng
+    n_sc = ctx.pick(35, 280)
+    kinds = ["identical-runs", "same-requests", "other-requests", "refused-replies", "cancelled-calls", "oem-state", "pauses"]
+    jobs = []   # one per replay: dict(scenario, line, real, spec=(hist, recorded tokens)|None, runs_in_db, where)
+    replies_seen = set()
+
+    def table_plan(n, boot, good_keys=True):
+        plan = _gen_table_history(rng, TableECU(boot), n)
+        return plan if good_keys else [(("key", it[1], False) if it[0] == "key" else it) for it in plan]
+
+    def table_ecu(boot, ctr0=0):
+        e = TableECU(boot)
+        e.ctr = ctr0
+        return e
+
+    # the synthetic table of state objects, every server-side key set
+    dbp = Path(td) / "state-table.sqlite"
+    run_id, _ = vrun(sc.state_table_db(dbp))
+    sc.name_runs(dbp, [(run_id, "fake://table", "TAB", {})])
+    runs_txt, rows_txt, _ = sc.db_for_model(dbp)
+    for scenario, xs, reqs in sc.state_table_cases():
+        real, _ = vrun(sc.replay_trace(dbp, "TAB", None, reqs, xs))
+        jobs.append({"scenario": scenario, "line": sc.serve_line("TAB", None, xs, runs_txt, rows_txt, reqs), "real": real, "spec": None,
+                     "runs_in_db": 1, "where": f"server state keys {sorted((xs or {}).keys())}"})
+        ctx.kind("scenario:state-table")
+    ctx.exhaustive_parts.append(f"{len(sc.STATE_OBJECTS)} logged state objects (missing / further keys, other key order, text / bool / null / negative / list / object "
+                                "values) x 6 server-side key sets x 3 server states, matched through the real WHERE clause")
+
+    for si in range(n_sc):
+        scenario = kinds[si % len(kinds)]
+        dbp = Path(td) / f"sc{si}.sqlite"
+        boot = rng.choice([0, 1, 2])
+        n = rng.randint(6, ctx.pick(18, 30))
+        named, recs = [], []
+
+        def rec(url, name, ecufn, steps, oem=False, vin="VIN0"):
+            r, _ = vrun(sc.record_run(dbp, url, ecufn, steps, oem=oem))
+            named.append((r["run"], url, name, {"vin": vin, "hw": 7}))
+            recs.append(r)
+            return r
+
+        def bystander():
+            if rng.random() < 0.5:  # a run of another ECU in between: ids of one ECU's recordings are not consecutive
+                rec(f"fake://other{len(recs)}", "OTHER", table_ecu(0, 7), table_plan(rng.randint(3, 8), 0), vin="VINX")
+
+        replays = []   # (run record for the spec or None, [(gap, pdu)], xs, where)
+        if scenario in ("identical-runs", "same-requests"):
+            k = rng.choice([2, 2, 3])
+            plan = table_plan(n, boot, good_keys=scenario == "identical-runs")
+            for j in range(k):
+                bystander()
+                rec("fake://ecu0", "ECU0", table_ecu(boot, 0 if scenario == "identical-runs" else 16 * j), plan)
+            mine = [r for r, nm in zip(recs, named) if nm[2] == "ECU0"]
+            reqs = [(0, p) for p, _, _ in mine[0]["calls"]]
+            replays.append((mine[0], reqs, None, "first pass"))
+            passes = rng.choice([2, k, k + 1])
+            replays.append((None, reqs * passes, None, f"{passes} passes over {k} recordings"))
+        elif scenario == "other-requests":
+            k = rng.choice([2, 3])
+            for j in range(k):
+                bystander()
+                rec("fake://ecu0", "ECU0", table_ecu(boot, 16 * j), table_plan(rng.randint(5, n), boot))
+            mine = [r for r, nm in zip(recs, named) if nm[2] == "ECU0"]
+            replays.append((mine[0], [(0, p) for p, _, _ in mine[0]["calls"]], None, "requests of the earliest recording"))
+            j = rng.randrange(1, k)
+            replays.append((None, [(0, p) for p, _, _ in mine[j]["calls"]], None, f"requests of recording {j + 1} of {k}"))
+        elif scenario == "refused-replies":
+            bystander()
+            ecu = sc.MutatingECU(table_ecu(boot), rng, rng.choice([0.2, 0.4, 0.7]))
+            r = rec("fake://ecu0", "ECU0", ecu, table_plan(n, boot))
+            replays.append((r, [(0, p) for p, _, _ in r["calls"]], None, f"{ecu.mutated} refused replies"))
+        elif scenario == "cancelled-calls":
+            steps = []
+            for it in table_plan(n, boot):
+                x = rng.random()
+                if it[0] == "pdu" and x < 0.15:
+                    steps.append(("cancel-inflight", it[1], rng.random() < 0.5))
+                elif it[0] == "pdu" and x < 0.35:
+                    other = rng.choice([it[1], it[1], b"\x3e\x00", b"\x22\xf1\x86"])
+                    steps.append(("cancel-waiting", it[1], other))
+                else:
+                    steps.append(it)
+            bystander()
+            r = rec("fake://ecu0", "ECU0", table_ecu(boot), steps)
+            replays.append((r, [(0, p) for p, _, _ in r["calls"]], None, "every call, also the ones never transmitted"))
+            replays.append((None, [(0, p) for p, _, sent in r["calls"] if sent], None, "the transmitted requests only"))
+        elif scenario == "oem-state":
+            plan = table_plan(n, boot)
+            for _ in range(rng.randint(1, 4)):
+                d = rng.randrange(0x100)
+                plan.insert(rng.randrange(len(plan) + 1), ("pdu", bytes([0x31, 1, 0x02, d])))
+                plan.insert(rng.randrange(len(plan) + 1), ("pdu", bytes([0x2E, 0x01, d, 0x55])))
+            bystander()
+            r = rec("fake://ecu0", "ECU0", table_ecu(boot), plan, oem=True)
+            reqs = [(0, p) for p, _, _ in r["calls"]]
+            replays.append((r, reqs, None, "plain server"))
+            xs = rng.choice([{"variant": None}, {"variant": "R02"}, {"boots": 0}, {"boots": 1, "variant": None}, {"written": None}])
+            replays.append((None, reqs, xs, f"server state with further keys {xs}"))
+        else:  # pauses
+            bystander()
+            r = rec("fake://ecu0", "ECU0", table_ecu(boot), table_plan(n, boot))
+            replays.append((None, [(rng.choice(sc.GAPS_MS), p) for p, _, _ in r["calls"]], None, "pauses between the requests"))
+        sc.name_runs(dbp, named)
+        runs_txt, rows_txt, per_run = sc.db_for_model(dbp)
+        # the recorder wrote one row per call, in completion order
+        for r in recs:
+            got = [(q, a) for _, q, a in per_run.get(r["run"], [])]
+            want = [(hx(p) if p else "", None if a is None else hx(a)) for p, a, _ in r["calls"]]
+            if got != want:
+                ctx.disagree(f"replay:recorded-rows:{scenario}", f"the rows of run {r['run']} are not the completed calls in completion order: {got[:6]} vs {want[:6]}",
+                             {"scenario": scenario, "calls": want}, impl=got, model=want, spec_violated=False, site="ECU._request / DBHandler")
+            for _, a, _ in r["calls"]:
+                if a is not None:
+                    replies_seen.add(hx(a))
+        sel_name, sel_props = rng.choice([("ECU0", None), (None, {"vin": "VIN0"}), ("ECU0", {"vin": "VIN0", "hw": 7}), ("ECU0", {"absent": None})])
+        for spec_run, reqs, xs, where in replays:
+            real, _ = vrun(sc.replay_trace(dbp, sel_name, sel_props, reqs, xs))
+            spec = None
+            if spec_run is not None:
+                hist = [(p, a) for p, a, _ in spec_run["calls"]]
+                spec = (hist, ["N" if a is None else hx(a) for _, a in hist])
+            jobs.append({"scenario": scenario, "line": sc.serve_line(sel_name, sel_props, xs, runs_txt, rows_txt, reqs), "real": real, "spec": spec,
+                         "runs_in_db": len(recs), "where": where})
+            ctx.ev()
+            ctx.kind(f"scenario:{scenario}")
+            ctx.nontrivial((scenario, rows_txt, tuple(reqs), str(xs)))
+    return jobs, replies_seen
+
+
+def _judge_scenarios(ctx, jobs, replies_seen):
+    from gallia.services.uds.core import service
+
+    # every recorded reply: the model's reading (classify, C02's decoder, re-serialisation) against the real parser
+    replies = sorted(replies_seen)
+    unparsable = set()
+    for b, out in zip(replies, ctx.lean([f"kind {b}" for b in replies])):
+        k_cls, k_obj, how, pdu, _ = out.split(" ")
+        raw = bytes.fromhex(b)
+        try:
+            obj = service.UDSResponse.parse_dynamic(raw)
+            real_how, real_pdu = "typed", hx(obj.pdu)
+        except Exception:
+            real_how, real_pdu = "raw", b
+            unparsable.add(b)
+        real_kind = _kind_of_real(raw)
+        ctx.ev()
+        if (k_cls, k_obj, how, pdu) != (real_kind, real_kind, real_how, real_pdu):
+            ctx.disagree(f"replay:parse-recorded:{real_kind.rstrip('0123456789:')}:{real_how}", f"recorded reply {b}: the real parser gives {real_kind}/{real_how}/{real_pdu}, "
+                         f"the model classify={k_cls} object={k_obj} {how} {pdu}", {"reply": b}, impl=[real_kind, real_how, real_pdu], model=[k_cls, k_obj, how, pdu],
+                         spec_violated=False, site="UDSResponse.parse_dynamic / DBUDSServer.respond_after_default")
+    ctx.kind(*["recorded-reply:" + ("unparsable" if b in unparsable else "parses") for b in replies])
+    model_out = ctx.lean([j["line"] for j in jobs])
+    agree_out = ctx.lean(["agree " + ";".join(f"{hx(p) if p else '-'}:{hx(r) if r is not None else 'N'}" for p, r in j["spec"][0]) if j["spec"] and j["spec"][0] else "agree -"
+                          for j in jobs])
+    n_spec = 0
+    for j, mo, la in zip(jobs, model_out, agree_out):
+        real = j["real"]
+        model = mo.split(",") if mo and mo != "bad-op" else []
+        real_r = [t.split("~")[0] for t in real]
+        if j["spec"] is not None and la.split(" ")[0] == "1":
+            hist, recorded = j["spec"]
+            n_spec += 1
+            if real_r[: len(recorded)] != recorded:
+                _report_spec(ctx, hist, j["where"], j["scenario"], j["runs_in_db"], real_r, recorded, unparsable)
+                continue
+        if mo == "bad-op" or real != model:
+            i = _first_diff(real, model)
+            i = 0 if i is None else i
+            ctx.disagree(f"replay:model-vs-code:{j['scenario']}", f"real server and model differ at request {i} ({j['where']}): reply~state@cursor {real[i] if i < len(real) else '?'} vs "
+                         f"{model[i] if i < len(model) else mo[:80]}", {"scenario": j["scenario"], "where": j["where"], "line": j["line"][:4000], "index": i},
+                         impl=real[: i + 1], model=model[: i + 1], spec_violated=False, site="DBUDSServer.respond_after_default / UDSServer.respond / handle_request")
+    ctx.notes["scenario_replays"] = len(jobs)
+    ctx.notes["scenario_replays_checked_against_the_recording"] = n_spec
+    ctx.traces_validated += len(jobs)
+    if jobs:
+        j = jobs[-1]
+        ctx.sample({"scenario": j["scenario"], "where": j["where"], "replayed (reply~session/level@cursor)": j["real"][:10]})
+
+
 def run(ctx):
     setup_repo_import()
     import gallia.command  # noqa: F401
@@ -399,6 +667,7 @@ def run(ctx):
                              "logged": _logged_states(dbp, run_id)})
                 ctx.ev()
                 ctx.kind(f"runs={n_runs}", f"select:{mode}")
+        jobs, replies_seen = _scenarios(ctx, Path(td))
     out_r = ctx.lean(lines_replay)
     out_a = ctx.lean(lines_agree)
     out_d = ctx.lean(lines_db)
@@ -459,6 +728,7 @@ def run(ctx):
     ctx.notes["histories_where_presupposition_holds"] = n_agree
     ctx.notes["histories_where_client_and_server_state_tracking_diverge"] = n_disagree_presup
     ctx.traces_validated += len(meta)
+    _judge_scenarios(ctx, jobs, replies_seen)
     if meta:
         m = meta[0]
         ctx.sample({"selector": m["mode"], "runs_in_db": m["n_runs"], "history": [[hx(p), None if r is None else hx(r)] for p, r in m["hist"]][:12],
